@@ -4,10 +4,11 @@
    Proved, for every state, every handler/job behaviour and every oracle: the job that runs is a pending one with the
    smallest scheduled time, due (<= the next event time / the drain bound), run with the clock at max(clock, its time);
    the scheduling phase is left for the events of dt only when no job is due at or before dt; the final drain bound
-   is the latest pending job.  C13_partial: exactly-once and "between the right events" over whole runs are validated by
-   the correspondence check and the monitor (all insertion orders of up to 6 distinct times are swept exhaustively). *)
+   is the latest pending job.  Proved over whole runs: no job is lost or run twice (pending + executed = initial + scheduled, as multisets) and
+   the clocks of successive executions never decrease.  C13_partial: "every job scheduled before the drain began has run when
+   run() returns" is validated by the correspondence check and the monitor (all insertion orders of up to 6 distinct times are swept exhaustively). *)
 From Coq Require Import ZArith List.
-From Basana Require Import Dispatch.Backtest Dispatch.BacktestProofs.
+From Basana Require Import Dispatch.Backtest Dispatch.BacktestProofs Dispatch.MuxProofs Dispatch.RunProofs Dispatch.OnceProofs.
 Import ListNotations.
 Open Scope Z_scope.
 
@@ -36,6 +37,20 @@ Theorem C13_final_drain_bound_is_the_latest_job : forall beh_ev beh_job s oracle
   forall w k, In (w, k) (d_sched s') -> w <= d.
 Proof. exact drain_bound_covers_every_pending_job. Qed.
 Print Assumptions C13_final_drain_bound_is_the_latest_job.
+
+(* whole run: executed jobs and pending jobs together are exactly the jobs ever scheduled -- none lost, none run twice *)
+Theorem C13_jobs_neither_lost_nor_duplicated : forall beh_ev beh_job srcs jobs oracle fuel q,
+  let s := fst (run beh_ev beh_job fuel (init_d srcs jobs) oracle) in
+  (cnt q (d_sched s) + cnt q (executed (d_trace s)) = cnt q jobs + cnt q (scheduled beh_ev beh_job (d_trace s)))%nat.
+Proof. intros. apply run_delivers_exactly_once. Qed.
+Print Assumptions C13_jobs_neither_lost_nor_duplicated.
+
+(* whole run: a job never runs before its time, and the clock never goes back between executions *)
+Theorem C13_jobs_on_time_over_the_whole_run : forall beh_ev beh_job srcs jobs oracle fuel,
+  let s := fst (run beh_ev beh_job fuel (init_d srcs jobs) oracle) in
+  sorted_le (map clk (d_trace s)) /\ forall it, In it (d_trace s) -> due it <= clk it.
+Proof. exact run_clock_monotone. Qed.
+Print Assumptions C13_jobs_on_time_over_the_whole_run.
 
 (* non-vacuity: the witness of the repaired defect D1 -- jobs inserted at 10, 50, 20 after the last event all run, in order *)
 Example C13_d1_witness :
